@@ -26,7 +26,13 @@ pub fn gen_font(seed: u64, k: u64) -> FontSpec {
     match family_of(k) {
         "pairs" => fam_pairs(&mut r),
         "hangul" => fam_hangul(&mut r),
-        _ => fam_chains(&mut r),
+        _ => {
+            // the context fonts also map ZERO WIDTH NON-JOINER (to the filler glyph): context matching steps over a
+            // default-ignorable character, so a rule's input, backtrack or lookahead can span one
+            let mut s = fam_chains(&mut r);
+            s.cmap.insert(0, (0x200C, 5));
+            s
+        }
     }
 }
 
@@ -437,8 +443,15 @@ pub fn gen_req(r: &mut Rng, k: u64) -> Req {
         _ => Some(Direction::BottomToTop),
     };
     let script = match r.below(6) { 0..=2 => None, 3 | 4 => Some("Latn".to_string()), _ => Some("Hebr".to_string()) };
+    let mut cps: Vec<u32> = gl.iter().map(|g| pua(*g as u32 - 1)).collect();
+    if !pairs && r.chance(1, 3) {
+        for _ in 0..r.range(1, 2) {
+            let i = r.below(len as u64) as usize;
+            cps[i] = 0x200C;
+        }
+    }
     Req {
-        text: gl.iter().zip(clusters.iter()).map(|(g, c)| (pua(*g as u32 - 1), *c)).collect(),
+        text: cps.into_iter().zip(clusters.iter().copied()).collect(),
         dir,
         script,
         lang: None,
